@@ -19,7 +19,7 @@ RULE = ("plan = frame (0..12 rows quick / 0..40 thorough, 1..4 columns of any ki
         "result equals the reference model's and every cell equals its source row's cell bit-exactly, dtypes and column "
         "order unchanged. Non-trivial: nrow ≥ 2 and the op keeps and drops at least one row, or unique/drop_na keys contain a "
         "missing value, a duplicate, ±inf or |x| ≥ 2**53. Distinct = plan hash.")
-CASES = {"quick": 2500, "thorough": 8000}
+CASES = {"quick": 2500, "thorough": 16000}
 
 KINDS = ["f", "i", "b", "s", "s", "u", "d", "t", "td", "o", "oi", "ob", "y"]
 
